@@ -470,9 +470,10 @@ def corpus_task(t):
         r["discarded"] = "compiler timed out"
         return r
     for j in range(k):
-        text = corpus.permute(files[entry], rnd)
-        if text is None:
+        po = corpus.permute_order(files[entry], rnd)
+        if po is None:
             break
+        order, text = po
         vfiles = dict(files)
         vfiles[entry] = text
         var = build_and_run(bx, vfiles, entry=entry)
@@ -486,15 +487,57 @@ def corpus_task(t):
             if d:
                 r["divergences"].append({"variant_index": j, "class": d, "base_files": files,
                                          "variant_files": vfiles, "base": public(base), "var": public(var),
-                                         "entry": entry})
+                                         "entry": entry, "order": order, "uses_core": uses_core})
         elif var["accepted"] and var["run_exit"] is not None and var["run_exit"] >= 0:
             # the order as written is rejected, another order of the same definitions is accepted
             d = compare(var, base) or "variant-rejected"
             r["divergences"].append({"variant_index": j, "class": d, "swapped": True, "base_files": vfiles,
                                      "variant_files": files, "base": public(var), "var": public(base),
-                                     "entry": entry})
+                                     "entry": entry, "order": order, "uses_core": uses_core})
             break
     return r
+
+
+def minimise_corpus(d, budget=40):
+    """bring the diverging order of a corpus program closer to the order it was written in:
+    undo adjacent inversions while the same divergence class persists.
+    -> (files of the reference order, files of the diverging order, order, trials)"""
+    bx = common.worker_box()
+    if d.get("uses_core"):
+        bx.use_real_core()
+    entry = d["entry"]
+    swapped = bool(d.get("swapped"))
+    written = (d["variant_files"] if swapped else d["base_files"])
+    order = list(d["order"])
+    trials = [0]
+
+    def diverges(ordr):
+        if trials[0] >= budget:
+            return False
+        trials[0] += 1
+        pf = dict(written)
+        pf[entry] = corpus.apply_order(written[entry], ordr)
+        ref, sub = (pf, written) if swapped else (written, pf)
+        b = build_and_run(bx, ref, entry=entry, want_trace=False)
+        if not b["accepted"]:
+            return False
+        v = build_and_run(bx, sub, entry=entry, want_trace=False)
+        return compare(b, v) == d["class"]
+
+    if not diverges(order):
+        return None
+    progress = True
+    while progress and trials[0] < budget:
+        progress = False
+        for i in range(len(order) - 1):
+            if order[i] > order[i + 1]:
+                o2 = list(order)
+                o2[i], o2[i + 1] = o2[i + 1], o2[i]
+                if o2 != sorted(o2) and diverges(o2):
+                    order, progress = o2, True
+    pf = dict(written)
+    pf[entry] = corpus.apply_order(written[entry], order)
+    return ((pf, written) if swapped else (written, pf)) + (order, trials[0])
 
 
 def run_batch(seed, n_programs, k, traces_dir=None, deadline=None, max_files=3):
@@ -589,6 +632,11 @@ def main(tier, seed, replay_path=None):
                 "base_outcome": d["base"], "variant_outcome": d["var"], "minimised": False,
                 "swapped": bool(d.get("swapped")),
             }
+            if len(reported) < 6 and d.get("order"):
+                m = minimise_corpus(d)
+                if m:
+                    doc["base_files"], doc["variant_files"], doc["variant_order"], doc["minimisation_trials"] = m
+                    doc["minimised"] = True
             idx = "corpus%d" % idx[1]
         if doc is None:
             doc = {
